@@ -1,6 +1,7 @@
 package main
 
 import (
+	"fmt"
 	"go/ast"
 	"go/types"
 	"sort"
@@ -404,4 +405,216 @@ func (p *Prog) takenAsValue(f *Func) bool {
 		takenCache[p] = m
 	}
 	return f.Obj != nil && m[f.Obj]
+}
+
+// ---------- R-LOCKPAIR and R-LOCKORDER ----------
+
+// ruleLockPair: a mutex locked in a function is released on every path to the
+// function's return: by a deferred unlock registered while it is held, or by
+// an explicit unlock before the return.
+func ruleLockPair(c *Ctx) {
+	p := c.P
+	n := 0
+	for _, f := range p.Funcs {
+		li := p.Locks(f)
+		g := p.Graph(f)
+		held := li.may[g.Exit]
+		// locks acquired anywhere in f
+		acquired := lockSet{}
+		for _, call := range f.Calls() {
+			if v, op := p.lockOp(f, call); v != nil && op == "lock" {
+				acquired[v] = true
+			}
+		}
+		for v := range acquired {
+			n++
+			construct := "lock/unlock pairing of " + p.lockName(v)
+			if !held[v] {
+				c.R.Hold("R-LOCKPAIR", p.Pos(f.Node()), f.Name, construct, "explicitly unlocked on every path to the return", true)
+				continue
+			}
+			// held at exit on some path: every such path must have registered a deferred unlock
+			isDeferUnlock := func(m *Node) bool {
+				ds, ok := m.Ast.(*ast.DeferStmt)
+				if !ok {
+					return false
+				}
+				lv, op := p.lockOp(f, ds.Call)
+				return lv == v && op == "unlock"
+			}
+			// paths from each lock acquisition to exit that avoid both an explicit unlock and a deferred unlock
+			bad := false
+			var witness []string
+			for _, m := range g.Nodes {
+				isLock := false
+				if _, isDefer := m.Ast.(*ast.DeferStmt); isDefer {
+					continue
+				}
+				for _, call := range callsIn(m.Ast) {
+					if lv, op := p.lockOp(f, call); lv == v && op == "lock" {
+						isLock = true
+					}
+				}
+				if !isLock {
+					continue
+				}
+				seen := g.ReachAfter(m, func(x *Node) bool {
+					if isDeferUnlock(x) {
+						return true
+					}
+					if _, isDefer := x.Ast.(*ast.DeferStmt); isDefer {
+						return false
+					}
+					for _, call := range callsIn(x.Ast) {
+						if lv, op := p.lockOp(f, call); lv == v && op == "unlock" {
+							return true
+						}
+					}
+					return false
+				}, nil)
+				if _, leak := seen[g.Exit]; leak {
+					bad = true
+					witness = p.PathTo(seen, g.Exit)
+				}
+			}
+			if bad {
+				c.R.Violate("R-LOCKPAIR", p.Pos(f.Node()), f.Name, construct,
+					"there is a path on which "+p.lockName(v)+" is locked and the function returns without unlocking it (no deferred unlock was registered): every later user of the lock hangs", witness)
+			} else {
+				c.R.Hold("R-LOCKPAIR", p.Pos(f.Node()), f.Name, construct, "released by a deferred unlock registered right after the lock, on every path", true)
+			}
+		}
+	}
+	if n < 20 {
+		c.R.Undecided("R-LOCKPAIR", "", "instance-floor", fmt.Sprintf("only %d lock acquisitions found, 25 were confirmed by hand", n))
+	}
+}
+
+// ruleLockOrder: the "held while acquiring" relation between mutexes is acyclic
+// (intra-procedural regions plus synchronous module callees).
+func ruleLockOrder(c *Ctx) {
+	p := c.P
+	ci := p.Calls()
+	// acquires(f): locks f may acquire synchronously, transitively
+	acq := map[*Func]lockSet{}
+	for _, f := range p.Funcs {
+		s := lockSet{}
+		for _, call := range f.Calls() {
+			if v, op := p.lockOp(f, call); v != nil && op == "lock" {
+				s[v] = true
+			}
+		}
+		acq[f] = s
+	}
+	changed := true
+	for changed {
+		changed = false
+		for _, f := range p.Funcs {
+			for _, cs := range ci.sites[f] {
+				if cs.Kind == "go" {
+					continue
+				}
+				cands := append([]*Func{}, cs.Callees...)
+				if cs.ViaOnce {
+					cands = append(cands, cs.ArgLits...)
+				}
+				for _, ce := range cands {
+					for v := range acq[ce] {
+						if !acq[f][v] {
+							acq[f][v] = true
+							changed = true
+						}
+					}
+				}
+			}
+		}
+	}
+	type edge struct{ a, b *types.Var }
+	edges := map[edge]string{}
+	for _, f := range p.Funcs {
+		li := p.Locks(f)
+		g := p.Graph(f)
+		for _, m := range g.Nodes {
+			if m.Ast == nil {
+				continue
+			}
+			if _, isGo := m.Ast.(*ast.GoStmt); isGo {
+				continue
+			}
+			heldHere := li.may[m]
+			if len(heldHere) == 0 {
+				continue
+			}
+			for _, call := range callsIn(m.Ast) {
+				if v, op := p.lockOp(f, call); v != nil && op == "lock" {
+					for h := range heldHere {
+						if h != v {
+							edges[edge{h, v}] = p.Pos(call) + " in " + f.Name
+						}
+					}
+				}
+			}
+			for _, cs := range ci.sites[f] {
+				if cs.Node != m || cs.Kind == "go" {
+					continue
+				}
+				for _, ce := range cs.Callees {
+					for v := range acq[ce] {
+						for h := range heldHere {
+							if h != v {
+								edges[edge{h, v}] = p.Pos(cs.Call) + " in " + f.Name + " (via " + ce.Name + ")"
+							}
+						}
+					}
+				}
+			}
+		}
+	}
+	// cycle detection
+	adj := map[*types.Var][]*types.Var{}
+	for e := range edges {
+		adj[e.a] = append(adj[e.a], e.b)
+	}
+	var cyc []string
+	state := map[*types.Var]int{}
+	var stack []*types.Var
+	var dfs func(v *types.Var) bool
+	dfs = func(v *types.Var) bool {
+		state[v] = 1
+		stack = append(stack, v)
+		for _, w := range adj[v] {
+			if state[w] == 1 {
+				for i := len(stack) - 1; i >= 0; i-- {
+					cyc = append(cyc, p.lockName(stack[i]))
+					if stack[i] == w {
+						break
+					}
+				}
+				return true
+			}
+			if state[w] == 0 && dfs(w) {
+				return true
+			}
+		}
+		stack = stack[:len(stack)-1]
+		state[v] = 2
+		return false
+	}
+	found := false
+	for v := range adj {
+		if state[v] == 0 && dfs(v) {
+			found = true
+			break
+		}
+	}
+	var desc []string
+	for e, where := range edges {
+		desc = append(desc, p.lockName(e.a)+" -> "+p.lockName(e.b)+" at "+where)
+	}
+	sort.Strings(desc)
+	if found {
+		c.R.Violate("R-LOCKORDER", "-", "", "lock order is acyclic", "mutexes are acquired in a cyclic order ("+strings.Join(cyc, " <- ")+"): two goroutines taking them in opposite order deadlock. Edges: "+strings.Join(desc, "; "), nil)
+	} else {
+		c.R.Hold("R-LOCKORDER", "-", "", "lock order is acyclic", fmt.Sprintf("%d held-while-acquiring edges, no cycle: %s", len(edges), strings.Join(desc, "; ")), true)
+	}
 }
